@@ -33,6 +33,13 @@ public way in and out: the lenient constructor, keyword / positional arguments, 
 fresh and on a used object, max_blocks (all, more than all, every k < n: the first k blocks and their text), Latin-1
 bytes with encoding=, real files; bytes(), write_to_open_file, str/bytes of the blocks, copies and pickles; subscripts,
 len, the version list, the version parts and the top-block properties - all against the generator's components.
+
+Beyond the small scope (signatures ladder/... and size/...): count ladders - n distributions, n extra settings, n change
+lines, n blank / whitespace-only lines (in a block, leading, between blocks), n blocks for every n in 1..40 and 63..5000;
+a size ladder - whole texts of exactly 997 .. 262 145 bytes with a line end placed next to every multiple of 65 536 (and a
+two-byte character across it), one long change line / setting value / maintainer name, and single lines of exactly L
+characters; each document as str, bytes, lines, BytesIO, StringIO and bytes lines.  Documents are regenerated from
+(ladder, arrangement, n, seed) - see ladder_doc().
 """
 import collections
 import copy
@@ -64,7 +71,8 @@ RULE = ("Engine B on a grammar product: states = distinct generator prefixes (pa
         "bytes lines, every form checked against the generator's components; routes: one state / transition per "
         "document, one trace per parse made along a route, evaluations = oracle comparisons per route (the 4 + 9 per block "
         "of the plain oracle for every parsing route, one per formatting route, about 20 + 4 per block for the reading "
-        "routes)")
+        "routes); ladders / sizes (beyond the small scope): one state / transition per generated document, one trace per (document, "
+        "input form), all non-trivial")
 BUDGET = {"quick": 240, "thorough": 3000}
 
 POOL_SIZE = 30
@@ -147,6 +155,30 @@ def bounds(tier):
         "sweep": "one legal character at a time in one component of an otherwise fixed single block: " + ", ".join(
             "%s %s x %d" % (name, " / ".join(tpls).replace("%s", "<c>"), len(chars)) for name, tpls, chars in sweep_plan()),
     }
+    out["count_ladders"] = {
+        "counts": "every n in 1..40 and %r (both tiers)" % (LADDER_BIG,),
+        "ladders": ["%s / %s" % la for la in LADDERS],
+        "what": "an otherwise simple one-block document (two blocks for the separator ladder, n blocks for the blocks ladder) in "
+                "which one repeatable element occurs n times: n distributions in the heading; n extra key=value settings behind "
+                "urgency (with and without an urgency comment); n change lines (items / the six line kinds in turn / one item and "
+                "n-1 continuation lines); n consecutive blank lines first, in the middle and last in a block, n whitespace-only "
+                "lines, n leading blank lines, n blank lines between two blocks; n blocks (every block with its own version and "
+                "change text; components and separators varied, or uniform one-line blocks)",
+        "input_forms": LADDER_FORMS, "oracle": "the plain oracle of every other family (no exception, no warning, str() == text, block "
+                                               "count, 9 attributes per block) for every input form"}
+    out["size_ladder"] = {
+        "total_bytes": SIZE_L,
+        "styles": ["%s%s" % (st, "" if w is None else " / line end at %s" % (
+            {-1: "65536k - 1 (the next line starts on the multiple)", 0: "65536k", 1: "65536k + 1",
+             "mb": "65536k + 1 behind a two-byte character that straddles the multiple"}[w])) for st, w in SIZE_STYLES],
+        "what": "whole texts whose UTF-8 form has exactly L bytes: 'lines' = blocks of 25 change lines of 60 characters, with "
+                "one change line padded so that its newline falls on the stated byte next to EVERY multiple of 65 536 inside the "
+                "text and another one so that the text ends at exactly L; 'one-line' = one block with one change line of "
+                "about L characters (blanks, 'word:', ' -- ', '<', '>', ';' inside); 'setting-value' = a heading whose extra "
+                "setting has a value of about L characters; 'author' = a maintainer name of about L characters (with ' <word>' inside)",
+        "lines_of_exactly_L": "styles change-line-of-L / heading-of-L / trailer-of-L: a one-block text in which that one line has "
+                              "exactly L characters (L from the same list)",
+        "input_forms": LADDER_FORMS}
     if tier != "quick":
         out["quadruples"] = ("all %d^4 ordered quadruples over the %d-block pool x (1..2)^3 separators, no leading blank line"
                              % (POOL_SIZE, POOL_SIZE))
@@ -175,6 +207,11 @@ def assumptions():
         "version parts expected of block.version / Changelog.epoch etc. are the generator's split of the version text "
         "(epoch before the first colon, revision after the last hyphen; mc/models/versyntax.parts); "
         "other_keys_normalised() re-spells keys by design and is not compared; non-Latin-1 documents skip the Latin-1 routes",
+        "ladders and sizes: deb-changelog(5) and the library set no limit on the number of distributions, settings, change "
+        "lines, blank lines or blocks, nor on the length of a line or of the text; keys of the settings ladder are distinct "
+        "(k0, k1, ... - a repeated key is not well-formed); ladder documents are regenerated from (ladder, arrangement, n, "
+        "seed) on replay; the sizes are UTF-8 byte counts (all filler is ASCII, the one two-byte character of the 'mb' style "
+        "is counted as two)",
         "seed rotates only letters/words inside components (package word, suite names, change text, author name); "
         "the classes of the six regexes see the same character classes for every seed",
         "near-duplicates: white space INSIDE the urgency comment, inside a key=value value, inside change text, inside the "
@@ -512,6 +549,8 @@ def _expected(b):
 def exec_case(case):
     """Run one generated document (or a session: several documents, one after the other, each with its own Changelog
     object) on the real code.  -> (violations, outcome class, evaluations)"""
+    if "ladder" in case:
+        return exec_ladder(case)[:3]
     if "session" in case:
         bad, outs, ev = [], [], 0
         for di, doc in enumerate(case["session"]):
@@ -918,6 +957,220 @@ def route_docs(C):
     return out
 
 
+# ------------------------------------------------------------------------------------------------
+# beyond the small scope: count ladders (one repeatable element of the grammar n times in an otherwise simple document)
+# and a size ladder (whole texts of exactly L bytes with a line end placed on / next to the multiples of 65 536).
+# A case is a compact description; the document is regenerated from it (ladder_doc) for execution and replay.
+
+LADDER_SMALL = list(range(1, 41))
+LADDER_BIG = [63, 64, 65, 100, 127, 128, 129, 255, 256, 257, 999, 1000, 1001, 1025, 2500, 2501, 5000]
+# (ladder, arrangement): what is repeated n times
+LADDERS = [("distributions", "plain"),
+           ("settings", "plain"), ("settings", "after-urgency-comment"),
+           ("change-lines", "items"), ("change-lines", "kinds"), ("change-lines", "continuations"),
+           ("blank-lines", "first-in-block"), ("blank-lines", "mid-block"), ("blank-lines", "last-in-block"),
+           ("blank-lines", "whitespace-only-mid-block"), ("blank-lines", "leading"), ("blank-lines", "separator"),
+           ("blocks", "varied"), ("blocks", "one-line-changes")]
+# the largest count run per ladder (quick, thorough): every case up to 5000 runs in well under a second
+LADDER_MAX = {}
+LADDER_FORMS = ["str", "bytes", "list of str lines without newlines", "io.BytesIO", "io.StringIO", "list of bytes lines with newlines"]
+SIZE_L = [997, 998, 999, 1000, 4095, 4096, 4097, 16383, 16384, 16385, 65535, 65536, 65537, 131071, 131072, 131073, 196608,
+          262143, 262144, 262145]
+SIZE_BLOCK = 65536
+# where the line end that is placed next to every multiple of 65 536 inside the text goes: the newline is the byte just
+# before the multiple (-1: the next line starts exactly on it), the byte on it (0), the byte after it (+1), or a two-byte
+# character straddles the multiple and the newline follows it ("mb")
+SIZE_STYLES = [("lines", -1), ("lines", 0), ("lines", 1), ("lines", "mb"), ("one-line", None), ("setting-value", None), ("author", None),
+               ("change-line-of-L", None), ("heading-of-L", None), ("trailer-of-L", None)]
+_FILL = "lorem ipsum: dolor sit -- amet <consectetur> ; urgency=low; x "
+_FILL_PLAIN = "lorem ipsum: dolor sit amet "
+_FILL_AUTHOR = "lorem <ipsum> dolor: sit amet "      # the address is what stands behind the LAST ' <' (see assumptions)
+
+
+def ladder_counts(ladder, tier):
+    top = LADDER_MAX.get(ladder, (5000, 5000))[0 if tier == "quick" else 1]
+    return [n for n in LADDER_SMALL + LADDER_BIG if n <= top]
+
+
+def _filled(prefix, length, fill=_FILL):
+    """a string of exactly `length` characters that starts with prefix and does not end with a blank"""
+    assert length >= len(prefix) + 1, (prefix, length)
+    body = (prefix + fill * ((length - len(prefix)) // len(fill) + 1))[:length]
+    return body[:-1] + "z" if body[-1] == " " else body
+
+
+def ladder_doc(case):
+    """the generated document {"lead", "blocks", "seps"} of a ladder / size case"""
+    C = comps(case.get("seed", 0))
+    word, suite, x, y = C["pkg"][0], C["dist"][0], C["chg"][0][4:], C["chg"][1][-1]
+    auth, date = C["auth"][0], C["date"][0]
+    base = [word, "1.0-1", suite, "low", "", [], ["  * " + x], auth, date]
+    if case["ladder"] == "size":
+        return size_doc(C, case["n"], case["arr"], case["where"])
+    ladder, arr, n = case["ladder"], case["arr"], case["n"]
+    lead, blocks, seps = 0, [base], []
+    if ladder == "distributions":
+        base[2] = " ".join("%s-%d" % (suite, i) for i in range(n))
+    elif ladder == "settings":
+        vals = ["v", "c d", "yes", "1 2  3", "w (v)"]
+        base[5] = [["%s%d" % ("kK"[i % 7 == 3], i), vals[i % len(vals)] + str(i)] for i in range(n)]
+        if arr == "after-urgency-comment":
+            base[3], base[4] = "medium", " (see NEWS)"
+    elif ladder == "change-lines":
+        if arr == "items":
+            base[6] = ["  * %s %d" % (x, i) for i in range(n)]
+        elif arr == "continuations":
+            base[6] = ["  * %s" % x] + ["    cont %d" % i for i in range(1, n)]
+        else:
+            kinds = C["chg"]
+            base[6] = [kinds[i % 6] + (" %d" % i if kinds[i % 6].strip() and i % 6 != 5 else "") for i in range(n)]
+    elif ladder == "blank-lines":
+        blank = [""] * n
+        if arr == "first-in-block":
+            base[6] = blank + ["  * " + x]
+        elif arr == "mid-block":
+            base[6] = ["  * " + x] + blank + ["  * " + y]
+        elif arr == "last-in-block":
+            base[6] = ["  * " + x] + blank
+        elif arr == "whitespace-only-mid-block":
+            base[6] = ["  * " + x] + [" " * (1 + i % 4) for i in range(n)] + ["  * " + y]
+        elif arr == "leading":
+            lead = n
+        else:
+            blocks, seps = [base, [word, "0.9-1", suite, "low", "", [], ["  * " + y], auth, date]], [n]
+    elif ladder == "blocks":
+        blocks = []
+        for i in range(n):
+            chg = ["  * %s %d" % (x, i)] if arr == "one-line-changes" else [
+                (C["chg"][k] + (" %d" % i if C["chg"][k].strip() and k != 5 else "")) for k in _POOL_CHG[i % len(_POOL_CHG)]]
+            blocks.append([C["pkg"][i % 3] if arr == "varied" else word, "%d.%d-1" % (n - i, i % 10), C["dist"][i % 4] if arr == "varied" else suite,
+                           C["urg"][i % 3][0], C["urg"][i % 3][1], [list(kv) for kv in C["kv"][i % 3]] if arr == "varied" else [],
+                           chg, C["auth"][i % 3], C["date"][(i // 3) % 3]])
+        seps = [1 + (i % 2 if arr == "varied" else 0) for i in range(n - 1)]
+    else:
+        raise ValueError(ladder)
+    return {"lead": lead, "blocks": blocks, "seps": seps}
+
+
+def _blen(s):
+    return len(s.encode("utf-8"))
+
+
+def size_doc(C, L, style, where):
+    """a well-formed document whose UTF-8 form has exactly L bytes (see SIZE_STYLES)"""
+    word, suite, x = C["pkg"][0], C["dist"][0], C["chg"][0][4:]
+    auth, date = C["auth"][0], C["date"][0]
+    assert _blen(auth) == len(auth) and _blen(word + suite + x) == len(word + suite + x)
+    trailer = len(" -- %s  %s\n" % (auth, date))
+    if style.endswith("-of-L"):
+        # one LINE of exactly L characters (the text is about 100 bytes longer)
+        b = [word, "1.0-1", suite, "low", "", [], ["  * " + x], auth, date]
+        if style == "change-line-of-L":
+            b[6] = ["  * " + x, _filled("  * ", L), "    cont"]
+        elif style == "heading-of-L":
+            b[5] = [["k", _filled("v ", L - len(header(b)) - len(", k="), _FILL_PLAIN)]]
+            assert len(header(b)) == L
+        else:
+            b[7] = _filled("A ", L - len(" --  <a@b.c>  " + date), _FILL_AUTHOR) + " <a@b.c>"
+            assert len(" -- %s  %s" % (b[7], date)) == L
+        return {"lead": 0, "blocks": [b], "seps": []}
+    if style != "lines":
+        b = [word, "1.0-1", suite, "low", "", [], ["  * " + x], auth, date]
+        rest = L - _blen(render({"lead": 0, "blocks": [b], "seps": []})[0])
+        if style == "one-line":
+            b[6] = ["  * " + x, _filled("  * ", rest - 1)]
+        elif style == "setting-value":
+            b[5] = [["k", _filled("v ", rest - len(", k="), _FILL_PLAIN)]]
+        else:
+            b[7] = _filled("A ", rest + len("A B"), _FILL_AUTHOR) + " <a@b.c>"
+        doc = {"lead": 0, "blocks": [b], "seps": []}
+    else:
+        final = L - trailer - 1                      # index of the newline of the last change line
+        shift = 1 if where == "mb" else where
+        targets = [t for t in (m * SIZE_BLOCK + shift for m in range(1, L // SIZE_BLOCK + 1)) if t < final - 200] + [final]
+        blocks, off = [], 0
+        while targets:
+            b = [word, "%d.0-1" % (1000000 - len(blocks)), suite, "low", "", [], [], auth, date]
+            off += (1 if blocks else 0) + len(header(b)) + 1
+            blocks.append(b)
+            while targets:
+                gap = targets[0] - off               # length of a line whose newline is the byte at targets[0]
+                assert gap >= 8, (L, where, gap)
+                if gap > 140:
+                    line = _filled("  * %s %d " % (x, len(b[6])), 60)
+                else:
+                    t = targets.pop(0)
+                    if where == "mb" and t != final:
+                        line = _filled("  * ", gap - 2) + "é"     # its two bytes are the last before and the first of the block
+                    else:
+                        line = _filled("  * ", gap)
+                b[6].append(line)
+                off += _blen(line) + 1
+                if not targets or (len(b[6]) >= 25 and targets[0] - off > 800):
+                    break
+            off += trailer
+        doc = {"lead": 0, "blocks": blocks, "seps": [1] * (len(blocks) - 1)}
+    assert _blen(render(doc)[0]) == L, (L, style, where)
+    return doc
+
+
+def exec_ladder(case):
+    """one ladder / size document in every form of LADDER_FORMS -> (violations, outcome, evaluations, parses)"""
+    doc = ladder_doc(case)
+    if case["ladder"] == "size":
+        pre = "size/%s/" % case["arr"]
+        tag = "size/%s: " % case["arr"]
+    else:
+        pre = "ladder/%s/%s/" % (case["ladder"], case["arr"])
+        tag = "ladder/%s: " % case["ladder"]
+    bad, ev, outs, plain = [], 0, collections.Counter(), set()
+    for form in LADDER_FORMS:
+        b, o, e = _exec_doc(doc, form)
+        ev += e
+        outs["VIOLATION" if b else "ok"] += 1
+        shape = o
+        if form == "str":
+            plain = {sig for sig, _e, _o in b}
+            bad += [(pre + sig, exp, obs) for sig, exp, obs in b]
+        else:
+            bad += [("%s%s+input=%s" % (pre, sig, form.replace(" ", "-")), exp, "%s: %r" % (form, obs))
+                    for sig, exp, obs in b if sig not in plain]
+    if case["ladder"] == "size" or case["n"] > 40:
+        shape = "large"
+    elif case["ladder"] in ("change-lines", "blank-lines") and case["n"] > 3:
+        shape = "more than 3 lines in the block"
+    return bad, tag + shape + " / " + " ".join("%s x%d" % kv for kv in sorted(outs.items())), ev, len(LADDER_FORMS)
+
+
+def ladder_cases(u, tier, seed):
+    if u[0] == "ladder":
+        ladder, arr = LADDERS[u[1]]
+        ns = ladder_counts(ladder, tier)
+        ns = ns[:40] if u[2] == "small" else ns[40:]
+        return [{"ladder": ladder, "arr": arr, "n": n, "seed": seed} for n in ns]
+    style, where = SIZE_STYLES[u[1]]
+    return [{"ladder": "size", "arr": style, "where": where, "n": L, "seed": seed} for L in SIZE_L]
+
+
+def run_ladder_unit(part, u, tier, seed):
+    cases = ladder_cases(u, tier, seed)
+    for case in cases:
+        bad, outcome, ev, parses = exec_ladder(case)
+        part.states += 1
+        part.transitions += 1
+        part.traces += parses
+        part.evaluations += ev
+        part.nontrivial += 1
+        part.outcomes[outcome] += 1
+        part.max_depth = max(part.max_depth, case["n"] if u[0] == "ladder" else 0)
+        for sig, exp, obs in bad:
+            part.violation(sig, case, exp, obs, rank=case["n"])
+    part.extra["ladder documents (beyond the small scope)" if u[0] == "ladder" else "size-ladder documents"] += len(cases)
+    part.sample(cases[0])
+    part.sample(cases[-1])
+    return part
+
+
 def nontrivial(case):
     if "session" in case:
         return all(nontrivial(d) for d in case["session"])
@@ -992,10 +1245,17 @@ def units(tier, seed):
     if tier != "quick":
         out += [("quad", i, j) for i in range(POOL_SIZE) for j in range(POOL_SIZE)]
     out += [("sweep", name) for name in dict.fromkeys(name for name, _t, _c in sweep_plan())]
+    # beyond the small scope
+    out += [("ladder", i, g) for i in range(len(LADDERS)) for g in ("small", "big")]
+    out += [("size", i) for i in range(len(SIZE_STYLES))]
     return out
 
 
 def unit_cost(u, tier):
+    if u[0] == "ladder":
+        return 20000 if u[2] == "big" else 3000
+    if u[0] == "size":
+        return 20000
     if u[0] == "twin-pristine":
         return 30 * (5 + 2 * 5 * 7)
     if u[0] == "twin-single":
@@ -1182,6 +1442,8 @@ def _run_extra_unit(part, u, C):
 def run_unit(u, tier, seed):
     part = core.Part()
     C = comps(seed)
+    if u[0] in ("ladder", "size"):
+        return run_ladder_unit(part, u, tier, seed)
     if u[0].startswith("twin") or u[0] in ("spelling", "long", "forms"):
         return _run_extra_unit(part, u, C)
     if u[0] in ("routes", "routes-sweep"):
@@ -1350,6 +1612,10 @@ def replay(case):
 
 
 def repro_py(case):
+    if "ladder" in case:
+        return ("# the document is generated from the case description: see mc/props/c04.py ladder_doc()\n"
+                "import sys\nsys.path.insert(0, '/verif')\nfrom mc.props import c04\n"
+                "bad = c04.replay(%r)\nassert not bad, bad[0]\n" % (case,))
     if case.get("forms"):
         text = render(case)[0]
         exp = [[_expected(b)[a] for a in ATTRS] for b in case["blocks"]]
